@@ -1,5 +1,8 @@
 import HermesProofs.Calendar
+import HermesProofs.Config
+import HermesProofs.GroundWater
 import HermesProofs.Partition
 import HermesProofs.RatInst
+import HermesProofs.SoilTemp
 import HermesProofs.Substeps
 import HermesProofs.Water
